@@ -226,6 +226,34 @@ class FlowEmit:
             return [pad + self.cont(env, M)]
         s, rest = stmts[0], stmts[1:]
         k = s[0]
+        skip_once = getattr(self, "_skip_once", False)
+        self._skip_once = False
+        if self.spec.get("effect_calls") and not skip_once:
+            wrappers = []
+            if k == "let": s2 = ("let", s[1], s[2], self.hoist(s[3], env, wrappers))
+            elif k == "assign": s2 = ("assign", s[1], s[2] if s[2][0] != "index" else ("index", s[2][1], self.hoist(s[2][2], env, wrappers)), self.hoist(s[3], env, wrappers))
+            elif k == "return": s2 = ("return", None if s[1] is None else self.hoist(s[1], env, wrappers))
+            elif k == "expr" and s[1][0] == "if": s2 = ("expr", ("if", self.hoist(s[1][1], env, wrappers), s[1][2], s[1][3]))
+            elif k == "expr" and s[1][0] == "mcall" and self.match_effect_call(s[1]) is not None:
+                self.hoist(s[1], env, wrappers); s2 = None      # a call for its effect only
+            elif k == "expr" and s[1][0] not in ("block", "for", "macro"): s2 = ("expr", self.hoist(s[1], env, wrappers))
+            else: s2 = s
+            if wrappers:
+                depth = sum(1 for o, c in wrappers if c)
+                # the hoisted statement itself is emitted without re-hoisting; the rest is hoisted normally
+                if s2 is not None:
+                    self._skip_once = True
+                    lines = self.block([s2] + rest, tail, env, M, ind + depth)
+                else:
+                    lines = self.block(rest, tail, env, M, ind + depth)
+                d = 0
+                out_open, out_close = [], []
+                for o, c in wrappers:
+                    out_open += ["  " * (ind + d) + x for x in o]
+                    if c:
+                        out_close = ["  " * (ind + d) + x for x in c] + out_close
+                        d += 1
+                return out_open + lines + out_close
         if k == "let":
             name = s[1]
             if isinstance(name, tuple): die("tuple patterns are not supported")
@@ -346,6 +374,77 @@ class FlowEmit:
                     self.block(rest, tail, env, M, ind + 1)
             die("unsupported expression statement %s" % (e[0],))
         die("unsupported statement %s" % k)
+
+    # ---------------------------------------------------------------- hoisting of effectful calls
+    def match_effect_call(self, e):
+        """spec['effect_calls']: { 'self.rng.gen_range' | 'self.draw_gap' | ... : (kind, template, result type, [state keys]) }"""
+        ec = self.spec.get("effect_calls", {})
+        if not ec or e[0] != "mcall":
+            return None
+        recv = e[1]
+        if recv == ("path", ["self"]):
+            key = "self." + e[2]
+        elif recv[0] == "field" and recv[1] == ("path", ["self"]):
+            key = "self.%s.%s" % (recv[2], e[2])
+        else:
+            return None
+        return ec.get(key)
+
+    def hoist(self, e, env, wrappers, in_branch=False):
+        """returns e with every effectful call replaced by a fresh variable; the bindings (in evaluation
+        order) are appended to `wrappers` as (open lines, close lines)"""
+        if not isinstance(e, tuple) or not e:
+            return e
+        eff = self.match_effect_call(e)
+        if eff is not None:
+            if in_branch: die("effectful call inside a conditional expression")
+            kind, tpl, rty, stkeys = eff
+            args = []
+            for a in e[3]:
+                a = self.hoist(a, env, wrappers, in_branch)
+                if a[0] in ("range", "rangei"):          # gen_range(0..k) / gen_range(0..=i)
+                    if a[1] != ("num", "0", "i") or a[2] is None: die("gen_range needs a range starting at 0")
+                    hi, hty = self.ex(a[2], env)
+                    args.append("(%s + 1)" % hi if a[0] == "rangei" else hi)
+                else:
+                    args.append(self.ex(a, env)[0])
+            text = tpl
+            for i, a in enumerate(args): text = text.replace("{%d}" % i, a)
+            for key in re.findall(r"\{(self\.[a-z_]+)\}", text): text = text.replace("{%s}" % key, env[key][0])
+            for key in re.findall(r"\{([a-z_]+)\}", text):
+                if key in env: text = text.replace("{%s}" % key, env[key][0])
+            self.ntmp = getattr(self, "ntmp", 0) + 1
+            tmp = "t%d_" % self.ntmp
+            env[tmp] = (tmp, rty, False)
+            stv = self.tup([env[k2][0] for k2 in stkeys])
+            if kind == "pair":
+                wrappers.append((["let (%s, %s) := %s;" % (tmp, stv, text)], []))
+            elif kind == "flowcall":
+                wrappers.append((["match %s with" % text, "| Flow.ret (%s, %s) =>" % (tmp, stv)], ["| _ => Flow.panic"]))
+            elif kind == "flowcall0":
+                wrappers.append((["match %s with" % text, "| Flow.ret %s =>" % tmp], ["| _ => Flow.panic"]))
+            elif kind == "flowcont":
+                wrappers.append((["match %s with" % text, "| Flow.cont %s =>" % stv], ["| _ => Flow.panic"]))
+            else:
+                die("bad effect kind")
+            return ("path", [tmp])
+        if e[0] == "if":
+            return ("if", self.hoist(e[1], env, wrappers, in_branch), self.hoist_check(e[2], env), None if e[3] is None else self.hoist_check(e[3], env))
+        if e[0] in ("block", "for", "closure"):
+            return e            # handled when that block is emitted
+        out = []
+        for x in e:
+            if isinstance(x, tuple) and x and isinstance(x[0], str):
+                out.append(self.hoist(x, env, wrappers, in_branch))
+            elif isinstance(x, list):
+                out.append([self.hoist(y, env, wrappers, in_branch) if isinstance(y, tuple) and y and isinstance(y[0], str) else y for y in x])
+            else:
+                out.append(x)
+        return tuple(out)
+
+    def hoist_check(self, e, env):
+        """an if-*expression* branch must not contain effectful calls (if-statements are handled as blocks)"""
+        return e
 
     def is_effect(self, e):
         return e[0] == "mcall" and e[2] in ("push", "clear") and e[1][0] in ("field", "path")
